@@ -35,7 +35,8 @@ def reach_axioms(kids_arr):
     """facts of the least fixed point desc* over the (unchanging) child relation"""
     a, b, c = z3.Consts('ra rb rc', NODE.sort())
     return [QHyp([a], reach(a, a), 'reach.refl'),
-            QHyp([a, b], z3.Implies(reach(a, b), z3.Or(a == b, z3.And(kids_arr[a][wit(a, b)], reach(wit(a, b), b)))), 'reach.inv'),
+            # a path never needs a self loop, so the inversion witness is a child other than the node itself
+            QHyp([a, b], z3.Implies(reach(a, b), z3.Or(a == b, z3.And(kids_arr[a][wit(a, b)], wit(a, b) != a, reach(wit(a, b), b)))), 'reach.inv'),
             QHyp([a, c, b], z3.Implies(z3.And(kids_arr[a][c], reach(c, b)), reach(a, b)), 'reach.step')]
 
 
@@ -188,7 +189,8 @@ W.externs['twisted.internet.reactor.callLater'] = Extern(drop=True)
 # ---------------------------------------------------------------------------- farm view (DESIGN §3)
 import dawgie.pl.message
 MTYPE = W.enum(dawgie.pl.message.Type)
-MSG = Rec('MSG', {'context': Opt(ATOM), 'factory': Opt(ATOM), 'incarnation': Opt(ATOM), 'jobid': Opt(ATOM), 'ps_hint': Opt(INT),
+FACREF = Rec('FacRef', {'module': ATOM, 'name': ATOM})
+MSG = Rec('MSG', {'context': Opt(ATOM), 'factory': Opt(FACREF), 'incarnation': Opt(ATOM), 'jobid': Opt(ATOM), 'ps_hint': Opt(INT),
                   'revision': Opt(ATOM), 'runid': Opt(INT), 'success': Opt(BOOL), 'target': Opt(ATOM), 'timing': Opt(ATOM),
                   'type': MTYPE, 'values': Opt(ATOM)})
 W.rec_classes = {'dawgie.pl.message.MSG': MSG}
@@ -200,8 +202,15 @@ W.declare_fields('Transport', closed=BOOL)
 W.class_path['Hand'] = 'dawgie.pl.farm.Hand'
 W.methods[('Transport', 'loseConnection')] = lambda ex, recv, args, kwargs, line: ex.set_field(recv, 'closed', True, line)
 W.declare_global('dawgie.pl.farm._workers', ListSet(HAND))
-W.declare_global('dawgie.pl.farm._cluster', SeqOf(MSG))
-W.declare_global('dawgie.pl.farm._busy', SeqOf(ATOM))
+from pyvc.types import Bag
+W.declare_global('dawgie.pl.farm._cluster', ListOf(MSG))
+W.declare_global('dawgie.pl.farm._cloud', ListOf(MSG))
+W.declare_global('dawgie.pl.farm._reject', ListOf(MSG))
+W.declare_global('dawgie.pl.farm._repeat', ListOf(MSG))
+W.declare_global('dawgie.pl.farm._busy', Bag(ATOM))          # unit names handed to workers (duplicates possible)
+W.declare_global('dawgie.pl.farm._jobs', Bag(NODE))                # a job may be listed twice (released again before it was queued)
+W.declare_global('dawgie.pl.farm._time', MapOf(ATOM, ATOM))
+W.declare_global('dawgie.pl.farm._agency', ListOf(Opt(Ref('Agency'))))
 W.declare_global('dawgie.context.git_rev', Opt(ATOM))
 W.declare_global('dawgie.context.fsm', FSM)
 
@@ -366,3 +375,25 @@ def _user_binop(ex, op, a, b, line):
 
 
 W.user_binop = _user_binop
+
+
+def one_node_per_tag_among_children(c):
+    """A4 in the tree: a child carrying its parent's tag is the parent itself (self dependence), not another node"""
+    a, b = z3.Consts('t4_a t4_b', NODE.sort())
+    return [QHyp([a, b], Implies(And(c.old.arr('Node.kids')[a][b], tag(c.old, a) == tag(c.old, b)), a == b), 'A4.children')]
+
+W.dyn_getattr_hooks = []
+
+
+def _dyn_getattr(ex, obj, name, e):
+    for h in W.dyn_getattr_hooks:
+        r = h(ex, obj, name, e)
+        if r is not None:
+            return r
+    raise Unsupported('getattr with a computed name')
+
+
+W.dyn_getattr = _dyn_getattr
+
+W.declare_global('dawgie.pl.farm.ARCHIVE', BOOL)
+W.constants = set()
